@@ -39,6 +39,8 @@ pub enum Damage {
     MoveSubtree(u16, u16),
     /// copy one element subtree to another tag boundary
     CopySubtree(u16, u16),
+    /// every SEQUENCE-NUMBER text replaced by a small number (repeats, holes)
+    Renumber(u8),
 }
 #[derive(Debug, Clone, Hash, PartialEq, Eq, Serialize, Deserialize)]
 pub struct Case {
@@ -289,6 +291,35 @@ fn apply(doc: &[u8], d: &Damage) -> (Vec<u8>, Vec<usize>) {
             }
             (out, vec![a, dst])
         }
+        Damage::Renumber(seed) => {
+            let mut out = vec![];
+            let mut i = 0;
+            let mut n = 0u64;
+            let mut touched = vec![];
+            while i < doc.len() {
+                let rest = &doc[i..];
+                if let Some(p) = find(rest, b"SEQUENCE-NUMBER>") {
+                    let start = i + p + b"SEQUENCE-NUMBER>".len();
+                    // only opening tags: the text runs up to the next '<'
+                    let is_open = doc[..i + p].iter().rposition(|&c| c == b'<').map_or(false, |lt| doc.get(lt + 1) != Some(&b'/'));
+                    out.extend_from_slice(&doc[i..start]);
+                    let end = doc[start..].iter().position(|&c| c == b'<').map(|e| start + e).unwrap_or(doc.len());
+                    if is_open {
+                        n += 1;
+                        let v = crate::util::splitmix64((*seed as u64) << 32 | n) % [2u64, 3, 4, 5][(*seed as usize) % 4];
+                        out.extend_from_slice(v.to_string().as_bytes());
+                        touched.push(start);
+                    } else {
+                        out.extend_from_slice(&doc[start..end]);
+                    }
+                    i = end;
+                } else {
+                    out.extend_from_slice(rest);
+                    break;
+                }
+            }
+            (out, touched)
+        }
         Damage::DupSlice(x, y) => {
             let (i, j) = (idx(*x, doc.len()), idx(*y, doc.len()));
             let (i, j) = (i.min(j), i.max(j).min(i.min(j) + 400));
@@ -424,6 +455,7 @@ pub fn check(c: &Case) -> CheckResult {
             Damage::Corrupt(_) => "bytes-corrupted",
             Damage::DupSlice(..) => "slice-duplicated",
             Damage::MoveSubtree(..) | Damage::CopySubtree(..) => "subtree-moved",
+            Damage::Renumber(_) => "renumbered",
             _ => "other",
         };
         let cls = judge(load(&paths), &format!("{}-inside-{}", kind, place), &|| {
@@ -439,6 +471,7 @@ pub fn check(c: &Case) -> CheckResult {
             "attribute-deleted" => "damage:attribute-deleted",
             "bytes-corrupted" => "damage:bytes-corrupted",
             "subtree-moved" => "damage:subtree-moved-or-copied",
+            "renumbered" => "damage:sequence-numbers-repeated",
             _ => "damage:slice-duplicated",
         });
         pass.nontrivial = changed && place != "-";
@@ -469,6 +502,7 @@ fn damage() -> BoxedStrategy<Damage> {
         2 => any::<(u16, u16)>().prop_map(|(a, b)| Damage::DupSlice(a, b)),
         4 => any::<(u16, u16)>().prop_map(|(a, b)| Damage::MoveSubtree(a, b)),
         3 => any::<(u16, u16)>().prop_map(|(a, b)| Damage::CopySubtree(a, b)),
+        4 => any::<u8>().prop_map(Damage::Renumber),
         1 => (0u8..16).prop_map(Damage::Paths),
     ]
     .boxed()
@@ -483,6 +517,7 @@ fn element_damage() -> BoxedStrategy<Damage> {
         2 => vec((any::<u16>(), byte), 1..3).prop_map(Damage::Corrupt),
         3 => any::<(u16, u16)>().prop_map(|(a, b)| Damage::MoveSubtree(a, b)),
         2 => any::<(u16, u16)>().prop_map(|(a, b)| Damage::CopySubtree(a, b)),
+        2 => any::<u8>().prop_map(Damage::Renumber),
     ]
     .boxed()
 }
@@ -548,7 +583,7 @@ pub fn run(run: &Run) {
          damages, then EVERY truncation offset from the first damage on'; damage = EVERY truncation offset of the \
          base document (sample files: enumerated section; generated documents: enumerated inside the case, counted in sub_evaluations), deletion of one \
          element subtree / start tag / end tag / attribute, 1..4 corrupted bytes (markup characters, NUL, invalid UTF-8), duplicated slices, one damaged \
-         member of a multi-file set, and special path sets (nonexistent, empty string, directory, empty file, whitespace, no paths, several paths with a degenerate one among them); element subtrees moved or copied to another place (also into another element); every load runs in \
+         member of a multi-file set, and special path sets (nonexistent, empty string, directory, empty file, whitespace, no paths, several paths with a degenerate one among them); element subtrees moved or copied to another place (also into another element); all sequence numbers replaced by small repeating ones; every load runs in \
          an evaluator child process and must answer 'model' or 'refused'; violation = panic, child death, or more than 10 s of CPU for one load (2 s \
          while shrinking, re-confirmed with 10 s); non-trivial = damaged document differs from its base and the damage lies inside a PDU / FRAME / \
          SIGNAL / CODING element (all-truncation cases: the document has such an element); distinct by the whole case",
